@@ -323,7 +323,7 @@ pub mod sym {
     fn solve_nice(s: &mut St, extra: &[Bool]) -> Option<Vec<(String, String)>> {
         // prefer small values on a decimal grid (representable by the real Decimal and readable in replays)
         for (grid, bound) in [(100i64, 1000i64), (10000, 1_000_000), (0, 1_000_000_000), (0, 0)] {
-            let f = new_solver(if grid == 0 && bound == 0 { s.prove_ms } else { 3000 });
+            let f = new_solver(if grid == 0 && bound == 0 { s.prove_ms } else { 1500 });
             for a in &s.pc {
                 f.assert(a);
             }
